@@ -216,6 +216,13 @@ func extractC17() *lean {
 	_, paF := parseFile("network/dag/parser.go")
 	pt := c17ErrConds(funcDecl(paF, "ParseTransaction"))
 	l.def("parseTransactionErrConds", "List String", leanStrList(pt), pt)
+	l.def("dagStrictFraming", "Bool", c17Bool(c17Has(pt, "!isJWSSerialization(input)")), c17Has(pt, "!isJWSSerialization(input)"))
+	// the framing test itself, verbatim (the harness re-states it to produce the verdict)
+	isf := "MISSING"
+	if fd := funcDecl(paF, "isJWSSerialization"); fd != nil {
+		isf = c17Src(fd.Body)
+	}
+	l.def("isJWSSerializationBody", "String", fmt.Sprintf("%q", isf), isf)
 	psa := c17ErrConds(funcDecl(paF, "parseSigningAlgorithm"))
 	l.def("parseSigningAlgorithmErrConds", "List String", leanStrList(psa), psa)
 	psp := c17ErrConds(funcDecl(paF, "parseSignatureParams"))
